@@ -50,7 +50,7 @@ def build():
     span = conn.impl_span(r'^impl<H: MsgHeader> Endpoint<H>')
     u.raw("impl Endpoint {")
     # ------------------------------------------------------------------ sender
-    u.extracted_fn(conn, "send_iovec_all", within=span, body_rw=R19, prefix="#[verifier::exec_allows_no_decreases_clause]\n",
+    u.extracted_fn(conn, "send_iovec_all", within=span, body_rw=R19,
                    loops=[SUM_LOOP, dict(kind="while", nth=0, text="""            invariant
                 iov_lens@ == lens(views(iovs@)), iovs@.len() == iov_lens@.len(), iovs@.len() <= usize::MAX,
                 forall|i: int| 0 <= i < iovs@.len() ==> (#[trigger] views(iovs@)[i]).len() <= usize::MAX,
@@ -59,7 +59,8 @@ def build():
                 self.wire@ =~= old(self).wire@ + flat(views(iovs@)).subrange(0, data_sent as int),
                 self.calls@.len() >= old(self).calls@.len(),
                 self.calls@.subrange(0, old(self).calls@.len() as int) =~= old(self).calls@,
-                fds_first_byte_only(old(self).calls@.len() as int, self.calls@, old(self).wire@.len() as int, ofds(fds)),""")],
+                fds_first_byte_only(old(self).calls@.len() as int, self.calls@, old(self).wire@.len() as int, ofds(fds)),
+            decreases data_total - data_sent, self.retry_budget@,   // [C08:terminates] every iteration transfers at least one byte, returns, or uses up one `retry` answer""")],
                    hints=SUM_HINTS + [
                        (r'while \(data_total - data_sent\) > 0', """let v = views(iovs@);
             assert forall|i: int| 0 <= i < v.len() implies (#[trigger] v[i]).len() <= usize::MAX by { assert(iovs@[i]@.len() <= usize::MAX); assert(v[i] == iovs@[i]@); }
@@ -81,7 +82,7 @@ def build():
             final(self).calls@.subrange(0, old(self).calls@.len() as int) =~= old(self).calls@,
             fds_first_byte_only(old(self).calls@.len() as int, final(self).calls@, old(self).wire@.len() as int, ofds(fds)), // [C08:fds-first-byte,C01] every sendmsg that starts at the message's first byte carries the caller's descriptors, every later one carries none""")
     # ------------------------------------------------------------------ receiver
-    u.extracted_fn(conn, "recv_into_iovec_all", within=span, body_rw=R19, prefix="#[verifier::exec_allows_no_decreases_clause]\n",
+    u.extracted_fn(conn, "recv_into_iovec_all", within=span, body_rw=R19,
                    sig_rw=[("R20", r'\bunsafe\s+fn\b', 'fn')],
                    loops=[SUM_LOOP, dict(kind="while", nth=0, text="""            invariant
                 iovs@ == old(iovs)@, v == aviews(iovs@), iov_lens@ == lens(v), iovs@.len() == iov_lens@.len(), iovs@.len() <= usize::MAX,
@@ -92,7 +93,8 @@ def build():
                 self.pos@ == old(self).pos@ + data_read,
                 self.stored@ =~= old(self).stored@ + deliver(flat(v).subrange(0, data_read as int), old(self).pos@),
                 data_read == 0 ==> self.rcalls@ == old(self).rcalls@ && rfds is None,
-                data_read > 0 ==> first_chunk_files(old(self).rcalls@, self.rcalls@, old(self).pos@, data_read as int, fids(rfds)),""")],
+                data_read > 0 ==> first_chunk_files(old(self).rcalls@, self.rcalls@, old(self).pos@, data_read as int, fids(rfds)),
+            decreases data_total - data_read, self.retry_budget@,   // [C08:terminates]""")],
                    hints=SUM_HINTS + [
                        (r'while \(data_total - data_read\) > 0', "let ghost v = aviews(iovs@);", "ghost"),
                        (r'while \(data_total - data_read\) > 0', """lemma_flat_len(v, v.len() as int); assert(v.subrange(0, v.len() as int) =~= v);
@@ -121,7 +123,7 @@ def build():
                     && final(self).stored@ =~= old(self).stored@ + deliver(flat(aviews(old(iovs)@)).subrange(0, k), old(self).pos@), // [C08:receiver-prefix-on-error]
             }""")
     # ------------------------------------------------------------------ recv_data (payload receive: loops until len bytes or end of stream)
-    u.extracted_fn(conn, "recv_data", within=span, prefix="#[verifier::exec_allows_no_decreases_clause]\n",
+    u.extracted_fn(conn, "recv_data", within=span,
                    body_rw=[("R19", r'vec!\[0u8; len\]', 'vec_zeroed(len)'),
                             ("R20", r'rbuf\[data_read\.\.\]\.as_mut_ptr\(\) as \*mut c_void', 'tail_addr(&mut rbuf, data_read)'),
                             ("R20", r'unsafe \{ self\.sock\.recv_with_fds\(&mut iovs, &mut \[\]\)\? \}', 'self.sock_recv_with_fds(&mut iovs, &mut [])?')],
@@ -136,7 +138,8 @@ def build():
                 rbuf@.len() == len, base_of(&rbuf) == b0, data_read <= len,
                 self.pos@ == old(self).pos@ + data_read,
                 self.stored@ =~= old(self).stored@ + deliver(Seq::new(data_read as nat, |k: int| b0 + k), old(self).pos@),
-                self.wire@ == old(self).wire@, self.calls@ == old(self).calls@,""")],
+                self.wire@ == old(self).wire@, self.calls@ == old(self).calls@,
+            decreases len - data_read,   // [C08:terminates] end of stream (0 bytes) ends the loop: a closed peer cannot make the receiver spin""")],
                    hints=[(r'let mut data_read = 0;', "let ghost b0 = base_of(&rbuf);", "ghost"),
                           (r'while data_read < len', "assert(deliver(Seq::new(0 as nat, |k: int| b0 + k), self.pos@) =~= Seq::empty());"),
                           (r'data_read \+= bytes;', "assert(self.stored@ =~= old(self).stored@ + deliver(Seq::new(data_read as nat, |k: int| b0 + k), old(self).pos@));", "after")],
